@@ -5,7 +5,36 @@ from yowsup.layers.network.dispatcher.dispatcher import YowConnectionDispatcher
 from yowsup.layers.network.dispatcher.dispatcher_socket import SocketConnectionDispatcher
 from yowsup.layers.network.dispatcher.dispatcher_asyncore import AsyncoreConnectionDispatcher
 import logging
+import threading
 logger = logging.getLogger(__name__)
+
+
+class _DispatcherCallbacks(ConnectionCallbacks):
+    """The callbacks handed to the dispatcher of one connection. Once the layer has moved on to another connection
+    they reach it no more: a thread that is still tearing the old connection down must not announce the new one down."""
+    def __init__(self, layer):
+        self._layer = layer
+
+    def _current(self):
+        return self._layer._callbacks is self
+
+    def onConnecting(self):
+        if self._current():
+            self._layer.onConnecting()
+
+    def onConnected(self):
+        if self._current():
+            self._layer.onConnected()
+
+    def onDisconnected(self):
+        self._layer.onDisconnected(self)
+
+    def onConnectionError(self, error):
+        self._layer.onDisconnected(self)
+
+    def onRecvData(self, data):
+        if self._current():
+            self._layer.onRecvData(data)
 
 
 class YowNetworkLayer(YowLayer, ConnectionCallbacks):
@@ -37,15 +66,19 @@ class YowNetworkLayer(YowLayer, ConnectionCallbacks):
         self.interface = YowNetworkLayerInterface(self)
         self.connected = False
         self._dispatcher = None  # type: YowConnectionDispatcher
+        self._callbacks = None  # type: _DispatcherCallbacks
+        # the end of a connection may be noticed by several threads at once (reader, a sender whose write fails, whoever
+        # asked for the disconnect): exactly one of them announces it
+        self._state_lock = threading.Lock()
         self._disconnect_reason = None
 
     def __create_dispatcher(self, dispatcher_type):
         if dispatcher_type == self.DISPATCHER_ASYNCORE:
             logger.debug("Created asyncore dispatcher")
-            return AsyncoreConnectionDispatcher(self)
+            return AsyncoreConnectionDispatcher(self._callbacks)
         else:
             logger.debug("Created socket dispatcher")
-            return SocketConnectionDispatcher(self)
+            return SocketConnectionDispatcher(self._callbacks)
 
     def onConnected(self):
         logger.debug("Connected")
@@ -53,10 +86,14 @@ class YowNetworkLayer(YowLayer, ConnectionCallbacks):
         self.connected = True
         self.emitEvent(YowLayerEvent(YowNetworkLayer.EVENT_STATE_CONNECTED))
 
-    def onDisconnected(self):
-        if self.state != self.__class__.STATE_DISCONNECTED:
+    def onDisconnected(self, callbacks=None):
+        with self._state_lock:
+            if callbacks is not None and callbacks is not self._callbacks:
+                return  # from the dispatcher of a connection the layer has left behind
+            first = self.state != self.__class__.STATE_DISCONNECTED
             self.state = self.__class__.STATE_DISCONNECTED
             self.connected = False
+        if first:
             logger.debug("Disconnected")
             self.emitEvent(
                 YowLayerEvent(
@@ -84,9 +121,15 @@ class YowNetworkLayer(YowLayer, ConnectionCallbacks):
         return True
 
     def createConnection(self):
+        if self.state == self.__class__.STATE_DISCONNECTING:
+            # the previous connection is still being torn down by another thread: announce it down now, the callbacks
+            # of its dispatcher are cut off below
+            self.onDisconnected()
         self._disconnect_reason = None
-        self._dispatcher = self.__create_dispatcher(self.getProp(self.PROP_DISPATCHER, self.DISPATCHER_DEFAULT))
-        self.state = self.__class__.STATE_CONNECTING
+        with self._state_lock:
+            self._callbacks = _DispatcherCallbacks(self)
+            self._dispatcher = self.__create_dispatcher(self.getProp(self.PROP_DISPATCHER, self.DISPATCHER_DEFAULT))
+            self.state = self.__class__.STATE_CONNECTING
         endpoint = self.getProp(self.__class__.PROP_ENDPOINT)
         logger.info("Connecting to %s:%s" % endpoint)
         self._dispatcher.connect(endpoint)
